@@ -4,7 +4,10 @@ import sys
 
 REPO = os.environ.get("VERIF_REPO", "/repo")
 VERIF = os.path.dirname(os.path.dirname(os.path.abspath(__file__)))
-WORK = os.path.join(VERIF, ".work")
+# scratch space; a run against another tree (VERIF_REPO) gets its own, so that it cannot disturb a run against /repo
+OTHER_TREE = os.path.realpath(REPO) != "/repo"
+WORK = os.path.join(VERIF, ".work") if not OTHER_TREE else \
+    os.path.join(VERIF, ".work", "other-tree", os.path.realpath(REPO).strip("/").replace("/", "_"))
 
 
 def setup_paths():
